@@ -23,25 +23,26 @@ import (
 // use the builders variant).
 
 type corpusSchema struct {
-	ID         string
-	Format     string
-	AM         *amSchema
-	Dir        string // input dir
-	SchemaPath string
-	SchemaText []byte
-	Validator  refValidator
-	Docs       map[string][]amDoc // accepted valid docs per object
-	Faults     map[string][]amDoc
-	Files      genFiles
-	GenErr     error
-	GenPanic   any
-	GenStack   string
-	GoOK       bool
-	PyOK       bool
-	GoTypes    map[string]bool // objects registered in the Go driver
-	Schemas    ast.Schemas     // IR handed to the Go jennies (context.schemas hook)
-	Contexts   map[string]languages.Context
-	Discards   int
+	ID          string
+	Format      string
+	AM          *amSchema
+	Dir         string // input dir
+	SchemaPath  string
+	SchemaText  []byte
+	Validator   refValidator
+	Docs        map[string][]amDoc // accepted valid docs per object
+	Faults      map[string][]amDoc
+	Files       genFiles
+	GenErr      error
+	GenPanic    any
+	GenStack    string
+	GoOK        bool
+	PyOK        bool
+	GoTypes     map[string]bool // objects registered in the Go driver
+	Schemas     ast.Schemas     // IR handed to the Go jennies (context.schemas hook)
+	Contexts    map[string]languages.Context
+	LangSchemas map[string]ast.Schemas // per-language schemas handed to the jennies (context.schemas hook)
+	Discards    int
 }
 
 type corpusOpts struct {
@@ -163,6 +164,10 @@ func (c *corpus) prepare(cs *corpusSchema, rng *RNG) {
 			if args[0].(string) == "go" {
 				cs.Schemas = args[2].(ast.Schemas)
 			}
+			if cs.LangSchemas == nil {
+				cs.LangSchemas = map[string]ast.Schemas{}
+			}
+			cs.LangSchemas[args[0].(string)] = args[2].(ast.Schemas)
 		case "context.ready":
 			cs.Contexts[args[0].(string)] = args[1].(languages.Context)
 		}
@@ -197,7 +202,14 @@ func (c *corpus) prepare(cs *corpusSchema, rng *RNG) {
 			cs.Docs[o.Name] = append(cs.Docs[o.Name], d)
 		}
 		if c.opts.Faults > 0 && o.T.K == "struct" && len(cs.Docs[o.Name]) > 0 {
-			cs.Faults[o.Name] = dg.faultDocs(o, cs.Docs[o.Name][0], c.opts.Faults)
+			// faults are injected into the richest accepted documents (populated collections)
+			docs := append([]amDoc(nil), cs.Docs[o.Name]...)
+			sort.SliceStable(docs, func(i, j int) bool { return len(docs[i].JSON()) > len(docs[j].JSON()) })
+			half := (c.opts.Faults + 1) / 2
+			cs.Faults[o.Name] = dg.faultDocs(o, docs[0], half)
+			if len(docs) > 1 {
+				cs.Faults[o.Name] = append(cs.Faults[o.Name], dg.faultDocs(o, docs[1], c.opts.Faults-half)...)
+			}
 		}
 	}
 }
@@ -554,6 +566,7 @@ type drvResp struct {
 	SelfEqual   *bool           `json:"self_equal"`
 	Panic       string          `json:"panic"`
 	Unknown     bool            `json:"unknown"`
+	ImportErr   string          `json:"import_err"`
 }
 
 // runDriver feeds requests to a driver process (in shards, in parallel) and returns responses by id.
@@ -626,6 +639,35 @@ func (c *corpus) runDriver(name string, argv []string, env []string, dir string,
 	}
 	wg.Wait()
 	return out, firstErr
+}
+
+// buildPyTree writes the generated Python packages as <dir>/pyroot/<sid>/… (each is a package).
+func (c *corpus) buildPyTree() error {
+	root := filepath.Join(c.dir, "pyroot")
+	_ = os.MkdirAll(root, 0o755)
+	n := 0
+	for _, cs := range c.Schemas {
+		if cs.Files == nil {
+			continue
+		}
+		py := cs.Files.under("python")
+		if len(py) == 0 {
+			continue
+		}
+		if err := py.writeTo(filepath.Join(root, cs.ID)); err != nil {
+			return err
+		}
+		cs.PyOK = true
+		n++
+	}
+	if n == 0 {
+		return fmt.Errorf("no python output")
+	}
+	return nil
+}
+
+func (c *corpus) runPy(reqs []drvReq) (map[string]drvResp, error) {
+	return c.runDriver("py", []string{"python3", filepath.Join(verifDir(), "py", "driver.py"), filepath.Join(c.dir, "pyroot")}, []string{"PYTHONDONTWRITEBYTECODE=1"}, c.dir, reqs)
 }
 
 func (c *corpus) runGo(reqs []drvReq) (map[string]drvResp, error) {
